@@ -244,6 +244,9 @@ func (cmd *ResponseCommand) populate(raw *rawEnvelope) error {
 	}
 
 	if raw.Status != nil {
+		if *raw.Status == "" {
+			return errors.New("command status cannot be empty")
+		}
 		cmd.Status = *raw.Status
 	}
 
